@@ -132,27 +132,33 @@ def digitsValue (base : Nat) (ds : List Nat) : Nat := ds.foldl (fun a d => a * b
 def longMax : Int := 9223372036854775807
 def longMin : Int := -9223372036854775808
 
+/-- the optional sign: (negative?, bytes consumed) -/
+def signSplit : List Nat → Bool × Nat
+  | 45 :: _ => (true, 1)
+  | 43 :: _ => (false, 1)
+  | _ => (false, 0)
+
+/-- length of a recognised `0x`/`0X` prefix (base 16 only, and only before a hex digit) -/
+def hexPrefix (base : Nat) (s : List Nat) : Nat :=
+  if base == 16 then
+    match s with
+    | 48 :: x :: h :: _ => if (x == 120 || x == 88) && (digitVal 16 h).isSome then 2 else 0
+    | _ => 0
+  else 0
+
 /-- `strtol(ptr,&end,base)` on the bytes from `ptr` (a NUL or the end of the list terminates):
 `some (value, end - ptr)`, or `none` when no conversion is performed (`end == ptr`). -/
 def strtol (s : List Nat) (base : Nat) : Option (Int × Nat) :=
   let ws := countSpaces s
-  let s1 := s.drop ws
-  let (neg, sg) := match s1 with
-    | 45 :: _ => (true, 1)
-    | 43 :: _ => (false, 1)
-    | _ => (false, 0)
-  let s2 := s1.drop sg
-  let px := if base == 16 then
-      match s2 with
-      | 48 :: x :: h :: _ => if (x == 120 || x == 88) && (digitVal 16 h).isSome then 2 else 0
-      | _ => 0
-    else 0
+  let sg := signSplit (s.drop ws)
+  let s2 := (s.drop ws).drop sg.2
+  let px := hexPrefix base s2
   let ds := takeDigits base (s2.drop px)
   if ds.isEmpty then none else
   let mag : Int := digitsValue base ds
-  let v : Int := if neg then (if -mag < longMin then longMin else -mag)
+  let v : Int := if sg.1 then (if -mag < longMin then longMin else -mag)
                  else (if mag > longMax then longMax else mag)
-  some (v, ws + sg + px + ds.length)
+  some (v, ws + sg.2 + px + ds.length)
 
 /-- `long`/`int` -> `int` (two's complement, 32 bit) -/
 def wrapS32 (v : Int) : Int := (v + 2147483648) % 4294967296 - 2147483648
